@@ -138,6 +138,18 @@ var c14Specials = []c14Special{
 		},
 	},
 	{
+		// Two changes on the same code: the first elides a region with "...",
+		// the second deletes commented, multi-line code inside that region
+		// (what one change records about a file must not leak into the next).
+		Label: "elide-then-delete",
+		Text:  "@@\n@@\n c14scope(func() {\n   ...\n-  c14old()\n+  c14new()\n })\n\n@@\n@@\n-c14dbg(...)\n+c14quiet()\n",
+		Plants: []string{
+			"c14scope(func() {\n\tc14dbg(1, // debug remark\n\t\t2)\n\tc14keep()\n\tc14old()\n})",
+			"c14scope(func() {\n\tc14keep()\n\tc14dbg(\n\t\t// inside the call\n\t\t3,\n\t)\n\n\tc14old()\n})",
+			"c14scope(func() {\n\tc14dbg(4) // trailing\n\tc14old()\n})",
+		},
+	},
+	{
 		// Not idempotent: applying the change twice shows in the bytes.
 		Label:  "bump",
 		Text:   "@@\nvar x expression\n@@\n-c14bump(x)\n+c14bump(x + 1)\n",
